@@ -2,6 +2,8 @@ package props
 
 import (
 	"bytes"
+	crand "crypto/rand"
+	"encoding/binary"
 	"errors"
 	"fmt"
 	"io"
@@ -119,6 +121,12 @@ func (C14) Gen(t *tape.Tape, tier string) any {
 			sc.ReadPath = "rowgroups"
 		}
 	}
+	if (sc.Mode == "source" || sc.Mode == "trunc") && sc.ReadPath != "bloom" && t.Chance(1, 5) {
+		// the same faults on an encrypted file: what ends early there is a module
+		sc.Plan.W.EncryptKey = []byte("pqsim-c14-key-16")
+		sc.Plan.W.EncryptedFooter = t.Bool()
+		sc.F.DecryptKey = sc.Plan.W.EncryptKey
+	}
 	if tier == "thorough" {
 		sc.MaxCases = 0
 		if t.Chance(1, 2) {
@@ -180,6 +188,13 @@ func (C14) Run(s any, c *core.Ctx) core.Outcome {
 	r.sh, r.data = sc.Plan.MakeData()
 	r.base = fmt.Sprintf("%s|%s|%d|%d|%s|", sc.Mode, sc.Plan.Shape, sc.Plan.RowSeed, sc.Plan.NRows, sc.Plan.W.Sig())
 	sc.Pools.Install()
+	if len(sc.Plan.W.EncryptKey) > 0 {
+		// nonces and the file identifier come from a seeded stream: runs replay byte for byte
+		old := crand.Reader
+		crand.Reader = detRand{tape.NewRng(sc.SampleSeed)}
+		defer func() { crand.Reader = old }()
+		c.Probe("encrypted-files")
+	}
 	// fault-free execution
 	ref := sc.Plan.Execute(c, nil, r.data)
 	if ref.FirstErr != nil {
@@ -450,7 +465,14 @@ func (r *c14run) driveSrc(f *env.SimFile) driveResult {
 func pageBoundaries(good []byte) []int64 {
 	f, err := parquet.OpenFile(bytes.NewReader(good), int64(len(good)))
 	if err != nil {
-		return nil
+		// an encrypted file: the module envelopes are the boundaries
+		flen := int64(binary.LittleEndian.Uint32(good[len(good)-8:]))
+		mods, _ := walkModules(good, int64(len(good))-8-flen)
+		var out []int64
+		for _, m := range mods {
+			out = append(out, m[0])
+		}
+		return out
 	}
 	seen := map[int64]bool{}
 	var out []int64
